@@ -106,7 +106,7 @@ HTML_BLOCK_OPEN = [
 LEAVES = [
     "", " ", "a", "a b", "foo", "# h", "## h ##", "#", "###### x", "####### x", "#\tx", "# x #", "# x \\#", "---", "***",
     "___", "- - -", "* * *", " ***", "    ***", "_ _ _ _", "-- -", "===", "--", "=", "= =", "```", "````", "~~~", "``` py",
-    "~~~ x y", "``` a`b", "~~~ a~b", "```\tpy", "    code", "     code2", "\tcode", "  \tcode", "> q", ">", ">q", "> > q",
+    "~~~ x y", "```\x0b", "~~~ \u00a0", "``` &#10;", "``` a`b", "~~~ a~b", "```\tpy", "    code", "     code2", "\tcode", "  \tcode", "> q", ">", ">q", "> > q",
     "- a", "-", "- ", "* a", "+ a", "1. a", "1) a", "2. b", "10. z", "-   a", "-     a", "0. z", "123456789. a",
     "1234567890. a", "-1. a", "1.", "1. ", "[a]: /u", "[a]: /u 'T'", "[b]: <x y> \"t\"", "[a]", "[a][b]", "[a]:", "[a]: ",
     "[x](y)", "![i](s)", "<div>", "</div>", "<!-- c -->", "<?php", "?>", "<pre>", "</pre>", "<a href=x>", "<b>", "*e*",
@@ -372,7 +372,7 @@ def leaf_block(d: D, tabs: bool) -> list[str]:
     if k == "fence":
         ch = d.pick(["`", "~"])
         n = d.i(3, 5)
-        info = d.pick(["", "", "py", " py ", "py x=1", "a`b" if ch == "~" else "a~b", "&amp;", "\\*", "<b>", "\"q\"", "py\tz" if tabs else "py z", "é", " ", "a\\ b", "{.x}", "&#35;"])
+        info = d.pick(["", "", "py", " py ", "py x=1", "a`b" if ch == "~" else "a~b", "&amp;", "\\*", "<b>", "\"q\"", "py\tz" if tabs else "py z", "é", " ", "a\\ b", "{.x}", "&#35;", "\x0b", "\u00a0", "\u2003 ", "&#10;", "&NewLine;", "&#32;", "&nbsp;", " \x0c\x1f", "\u3000x"])
         ind = d.pick(["", "", " ", "  ", "   "])
         body = []
         for _ in range(d.i(0, 3)):
